@@ -73,6 +73,24 @@ theorem dstep_access {P : Params α} {d : Disc α} {live : Live} (h : DInv P d l
         intro y dd he
         cases he
         simpa using hh
+  | addW m x dist w off =>
+    show GridAccess P d (add P d m x dist w off).1
+    unfold add
+    cases hl : lookup d.cdata x with
+    | some cd =>
+      simp only []
+      split
+      · exact .one _ (.upd x 0) rfl trivial (by intro y dd h; cases h) (by intro y h; cases h)
+      · exact .none rfl
+    | none =>
+      simp only []
+      split
+      · exact .none rfl
+      · rename_i hh
+        refine .one _ (.new x 0) rfl hv.1 ?_ (by intro y h; cases h)
+        intro y dd he
+        cases he
+        simpa using hh
   | select u pick => exact select_access d u pick
   | updScore x s =>
     show GridAccess P d (updScore P d x s)
